@@ -57,6 +57,45 @@ def alias_of(spec: dict[str, Any]) -> str:
     return spec["path"].rsplit(".", 1)[-1] if spec["path"] else ""
 
 
+class Eager:
+    """An awaitable that is not a coroutine and has already run up to its first suspension point when it is handed
+    over (a plain method that does its synchronous work at once and returns `gather(...)`, a future, an object with
+    `__await__` for the rest). A failure of the synchronous part is reported when the object is awaited."""
+
+    def __init__(self, coro: Any) -> None:
+        self.coro = coro
+        self.done = False
+        self.result: Any = None
+        self.exc: BaseException | None = None
+        self.first: Any = None
+        try:
+            self.first = coro.send(None)
+        except StopIteration as e:
+            self.done, self.result = True, e.value
+        except BaseException as e:  # noqa: BLE001
+            self.done, self.exc = True, e
+
+    def __await__(self) -> Any:
+        if self.done:
+            if self.exc is not None:
+                raise self.exc
+            return self.result
+        y = self.first
+        while True:
+            try:
+                sent = yield y
+            except BaseException as exc:  # noqa: BLE001 - e.g. the cancellation of the start-up
+                try:
+                    y = self.coro.throw(exc)
+                except StopIteration as e:
+                    return e.value
+            else:
+                try:
+                    y = self.coro.send(sent)
+                except StopIteration as e:
+                    return e.value
+
+
 class StartupRun:
     def __init__(self, case: dict[str, Any]) -> None:
         self.case = case
@@ -114,6 +153,15 @@ class StartupRun:
                         self.add_component(alias_of(run.prog[ch]), run.classes[ch])
 
             ns["__init__"] = __init__
+            if i % 3 == 1 and not spec.get("twin"):
+                # lifecycle methods that are plain methods: what they can do without waiting (publishing, say) is done
+                # when they are *called*; what they return is an awaitable object for the rest, not a coroutine
+                if spec["prepare"] is not None:
+                    ns["prepare"] = lambda self, _i=i, _acts=spec["prepare"]: Eager(run.phase(_i, "prep", _acts))
+                if spec["start"] is not None:
+                    ns["start"] = lambda self, _i=i, _acts=spec["start"]: Eager(run.phase(_i, "start", _acts))
+                self.classes[i] = type(f"C{i}", (Component,), ns)
+                continue
             if spec["prepare"] is not None:
                 async def prepare(self: Any, _i: int = i, _acts: list[dict[str, Any]] = spec["prepare"]) -> None:
                     await run.phase(_i, "prep", _acts)
@@ -130,6 +178,17 @@ class StartupRun:
                 self.classes[i] = type(f"C{i}", (base,), {"__init__": ns["__init__"]})
             else:
                 self.classes[i] = type(f"C{i}", (Component,), ns)
+
+    def polymorphic(self) -> None:
+        """Every fourth declared class is a front for an implementation class chosen at construction time (`__new__`
+        returns an instance of a subclass): the component that is prepared, started and named in errors is of that class."""
+        self.impl_classes: dict[int, type] = {}
+        for i, declared in list(self.classes.items()):
+            if i == 0 or i % 4 != 2 or self.prog[i].get("twin"):
+                continue
+            impl = type(f"C{i}Impl", (declared,), {})
+            declared.__new__ = staticmethod(lambda cls, *a, _impl=impl, **kw: object.__new__(_impl))  # type: ignore[assignment]
+            self.impl_classes[i] = impl
 
     async def phase(self, i: int, which: str, acts: list[dict[str, Any]]) -> None:
         from asphalt.core import add_resource, add_resource_factory, add_teardown_callback, get_resource
@@ -396,8 +455,12 @@ class StartupRun:
 
         logging.disable(logging.CRITICAL)
         self.build()
+        self.polymorphic()
         paths = {spec["path"]: i for i, spec in enumerate(self.prog)}
         cls_ids = {c: i for i, c in self.classes.items()}
+        for i, impl in self.impl_classes.items():
+            cls_ids[self.classes[i]] = -2       # (the front is not the class of the component that failed)
+            cls_ids[impl] = i
         outcome: dict[str, Any]
         snapshot: list[list[Any]] | None = None
         extra: dict[str, Any] = {}
@@ -457,7 +520,11 @@ class StartupRun:
                             else:
                                 self.probe_failed(paths.get(e.path, 0), f"the cause of the ComponentStartError is {cause!r}, "
                                                   f"not the exception {mine[0]!r} that the component raised", "C07")
-                        outcome = {"k": "cse", "phase": e.phase, "i": paths.get(e.path, -1), "cls": cls_ids.get(e.component_type, -1), "cause": ci}
+                        cid = cls_ids.get(e.component_type, -1)
+                        if e.phase == "creating" and cid == -2:
+                            # (no component came into being: the class that was to be instantiated is the declared one)
+                            cid = next(i for i, c in self.classes.items() if c is e.component_type)
+                        outcome = {"k": "cse", "phase": e.phase, "i": paths.get(e.path, -1), "cls": cid, "cause": ci}
                         self.log("raised", outcome)
                     except TimeoutError:
                         outcome = {"k": "timeout"}
